@@ -546,7 +546,8 @@ Definition pkt_of_sx (s : sx) : option pkt :=
 Definition obs_pkt (r : res pkt) : sx :=
   match r with
   | Ok p => s_ok [sx_of_pkt p; sN (psize p); SB (marshal p)]
-  | Err e => s_err e
+  | Err _ => SL [SZ 1]          (* which step failed is a model-internal class: the implementation
+                                   only offers an error TEXT, which the property does not constrain *)
   | Panic _ => s_panic
   end.
 
@@ -672,7 +673,7 @@ Fixpoint unmarshal_seq (r : pkt) (ds : list sx) (racc : list sx) : list sx :=
    (1 kind tid xdata) UnmarshalBinary(data) on New<kind>(tid) -> <packet obs>
    (2 (event...))     history -> (0 (obs...))
    (3 want (pkt...) (msg...))  the endpoint has written the pkts, then ExpectPacket(want) over msgs
-                      -> (0 index <pkt> table) | (1 code table) | (2)
+                      -> (0 index <pkt> table) | (1 class table) | (2), class 8 = the read failed, 1 = the decode failed
    (4 (type...) (msg...))      ExpectMessage(types...) -> (0 index type xpayload) | (1 8)
    (6 kind tid init (xdata...)) one receiver -- New<kind>(tid) for init = (), the constructed packet
                       for init = (pkt) -- decodes the payloads one after the other
@@ -705,7 +706,7 @@ Definition run_c03 (c : sx) : sx :=
           let t := fold_left on_packet_written ps [] in
           match expect_packet (want_of want) t ml 0 with
           | (Ok (i, p), t') => s_ok [sN i; sx_of_pkt p; sx_of_tx t']
-          | (Err e, t') => SL [SZ 1; sN e; sx_of_tx t']
+          | (Err e, t') => SL [SZ 1; sN (if e =? 8 then 8 else 1); sx_of_tx t']   (* 8: ReadMessage failed; 1: DecodeMessage failed *)
           | (Panic _, _) => s_panic
           end
       | _, _ => bad_case
